@@ -69,6 +69,14 @@ func cloneValue(src interface{}, dst interface{}) {
 			cloneValue(srcVal.Index(i).Interface(), dstElem.Index(i).Addr().Interface())
 		}
 
+	case reflect.Array:
+		// arrays may hold pointers, slices or maps that must not be
+		// shared: we deep clone element by element
+		dstElem := dstVal.Elem()
+		for i := 0; i < srcVal.Len(); i++ {
+			cloneValue(srcVal.Index(i).Interface(), dstElem.Index(i).Addr().Interface())
+		}
+
 	case reflect.Map:
 		dstElem := dstVal.Elem()
 		dstElem.Set(reflect.MakeMap(srcType))
